@@ -128,8 +128,8 @@ def gen_program(rnd):
                 if s.k == "link" or (s.k == "dot" and f is files[0] and idx == 0):
                     seen_site = True
             if seen_site:
-                n = rnd.randrange(0, 65)
-                back = rnd.random() < 0.25
+                n = rnd.choice([0, 1, 1, 2, 3, 64, rnd.randrange(0, 65), rnd.randrange(0, 65)])     # the smallest moves are the boundary
+                back = rnd.random() < 0.3
                 how = rnd.choice(["dot", "label", "latesym"])
                 pos = rnd.randrange(max(1, len(f.stmts) // 2), len(f.stmts) + 1)
                 # never before the site within this file
